@@ -16,7 +16,7 @@ const (
 // Batch is one unit of work executed by one worker process.
 type Batch struct {
 	Index      int             `json:"index"`
-	Flavour    string          `json:"flavour"` // plain | race | nomemo | mphase-race | prefilter | csargs
+	Flavour    string          `json:"flavour"` // plain | race | nomemo | mphase-race | prefilter | csargs | nomline
 	Params     json.RawMessage `json:"params,omitempty"`
 	GOMAXPROCS int             `json:"gomaxprocs,omitempty"`
 	TimeoutS   int             `json:"timeout_s,omitempty"` // wall-clock watchdog (generous); firing is inconclusive
